@@ -246,3 +246,7 @@ def run(repo: Repo, rep: Report, tier: str) -> None:
     offsets_before_compile_rule(repo, rep, "C18.R4")
     commit_path_rule(repo, rep, "C18.R5")
     align_flag_rule(repo, rep, "C18.R6")
+    from .memo import memo_rule
+
+    memo_rule(repo, rep, "C18.R7")
+
